@@ -117,6 +117,7 @@ func connectionScenario(w *trace.Writer, seed int64) {
 		panic(err)
 	}
 	addrs := []string{"a1", "a2", "a3"}[:1+r.Intn(3)]
+	badDialers := r.Intn(3) == 0 // some requests name a dialer the manager does not have
 	ng := 2 + r.Intn(7)
 	per := 1 + r.Intn(4)
 	var wg sync.WaitGroup
@@ -139,11 +140,15 @@ func connectionScenario(w *trace.Writer, seed int64) {
 					go func() { time.Sleep(time.Duration(gr.Intn(300)) * time.Microsecond); cancel() }()
 				}
 				h := int(atomic.AddInt64(&hcount, 1))
-				e.emit(trace.E{"ev": "inv", "g": name, "op": "Connection", "addr": addr, "cancelled": pre})
+				dialer := connection.DEFAULT
+				if badDialers && gr.Intn(5) == 0 {
+					dialer = "nosuch"
+				}
+				e.emit(trace.E{"ev": "inv", "g": name, "op": "Connection", "addr": addr, "cancelled": pre, "nodialer": dialer != connection.DEFAULT})
 				var cc *grpc.ClientConn
 				var done func()
 				var err error
-				if p := safely(func() { cc, done, err = m.Connection(ctx, addr, connection.DEFAULT) }); p != "" {
+				if p := safely(func() { cc, done, err = m.Connection(ctx, addr, dialer) }); p != "" {
 					e.emit(trace.E{"ev": "panic", "g": name, "op": "Connection", "msg": p})
 					return
 				}
